@@ -1,3 +1,4 @@
+pub mod artefacts;
 pub mod exec;
 pub mod front;
 pub mod swap;
